@@ -25,8 +25,9 @@
 (* Input kinds: "h" harness input (the driver's own: next() answers what   *)
 (* the step scripted), "s" mpt_stream_input over a socket pair (COBS), "c" *)
 (* mpt_notify_connect / accepted connection (COBS + 2 byte id), "f"        *)
-(* mpt_notify_connect to a FIFO, "l"/"o" mpt_notify_bind listener (keeps   *)
-(* listening / single connection).                                         *)
+(* mpt_notify_connect to a FIFO, "p" mpt_stream_input with a 2 byte id on  *)
+(* the read end of a pipe (no reply possible), "l"/"o" mpt_notify_bind     *)
+(* listener (keeps listening / single connection).                         *)
 (* Where the statement of C11 is silent (order in which ready inputs are   *)
 (* served, which listed input mpt_notify_next returns, return values of    *)
 (* wait/next, retry flag) the model is nondeterministic or answers "any".  *)
@@ -43,13 +44,15 @@ CONSTANTS MaxIn,      \* input tokens 1..MaxIn; every add attempt / accepted con
           Ops         \* optional groups of calls a configuration offers
 
 VARIABLES att,        \* a dispatcher is attached (mpt_notify_dispatch)
+          dir,        \* a handler is installed directly on the notifier (notify._disp = handler, token err): no
+                      \* dispatcher, no table; every message of every input goes to it as it is
           nin, ik,    \* input tokens drawn, kind per token
           reg, was, rel,
           wire, eof, buf, sent, last,
           peek,       \* design: the input has decoded its next message already (the look-ahead after a dispatch)
           wait, cur, conn,
           nobs
-nstate == <<att, nin, ik, reg, was, rel, wire, eof, buf, sent, last, peek, wait, cur, conn>>
+nstate == <<att, dir, nin, ik, reg, was, rel, wire, eof, buf, sent, last, peek, wait, cur, conn>>
 nvars  == <<state, nstate, obs, nobs>>
 full   == <<state, nstate>>
 
@@ -59,7 +62,14 @@ Upd(f, t, v) == [f EXCEPT ![t] = v]
 RECURSIVE SetSeq(_)
 SetSeq(S) == IF S = {} THEN <<>> ELSE LET m == MinOf(S) IN <<m>> \o SetSeq(S \ {m})
 HasIn(what) == (what % 2) = 1                  \* POLLIN bit (holds for -1 too)
-Data(k)  == k \in {"h", "s", "c", "f"}         \* inputs that carry messages
+Data(k)  == k \in {"h", "s", "c", "f", "p"}    \* inputs that carry messages
+Lib(k)   == k \in {"s", "c", "f", "p"}         \* ... of the library (stream inputs)
+Fifo(k)  == k \in {"f", "p"}                   \* read-only descriptors: FIFO, pipe
+HasId(k) == k \in {"c", "p"}                   \* every message starts with a 2 byte message id
+\* what the handler is to see of message e of input i, and the reply id the message announces (0: none)
+Pay(i, e) == IF HasId(ik[i]) THEN SubSeq(e, 3, Len(e)) ELSE e
+Rid(i, e) == IF HasId(ik[i]) /\ e[1] >= 128 THEN (e[1] - 128) * 256 + e[2] ELSE 0
+RC(r)     == IF r < 0 THEN -1 ELSE r
 Lsn(k)   == k \in {"l", "o"}                   \* listening inputs
 
 \* the dispatcher did nothing in this step
@@ -89,7 +99,7 @@ NAdd(k) ==
   /\ Lsn(k) => ~\E j \in reg : Lsn(ik[j])          \* one listener at a time (who accepted is then known)
   /\ Fresh(NewIn, k)
   /\ reg' = reg \cup {NewIn} /\ was' = was \cup {NewIn}
-  /\ UNCHANGED <<att, wait, cur>>
+  /\ UNCHANGED <<att, dir, wait, cur>>
   /\ DQuiet
   /\ NAnswer("add", [k |-> k, tok |-> NewIn], "ok", {}, {}, <<>>)
 
@@ -101,25 +111,27 @@ AddRefused(a, arg) ==
   /\ NAnswer(a, arg, "refused", {}, {}, <<>>)
 NAddSame(j) == j \in reg /\ AddRefused("addsame", [of |-> j])
 NAddBad     == AddRefused("addbad", [x |-> 0])
+\* ... or is one the kernel refuses to watch (a regular file: epoll_ctl answers EPERM)
+NAddFile    == AddRefused("addfile", [x |-> 0])
 
 (* environment: the peer of input i writes one message / ends / connects to a listener *)
 NSend(i, m) ==
   /\ i \in reg /\ Data(ik[i]) /\ ~eof[i]
   /\ Len(wire[i]) + Len(buf[i]) < MaxQ
   /\ wire' = Upd(wire, i, Append(wire[i], m)) /\ sent' = Upd(sent, i, sent[i] + 1)
-  /\ UNCHANGED <<att, nin, ik, reg, was, rel, eof, buf, last, peek, wait, cur, conn>>
+  /\ UNCHANGED <<att, dir, nin, ik, reg, was, rel, eof, buf, last, peek, wait, cur, conn>>
   /\ DQuiet
   /\ NAnswer("send", [i |-> i, data |-> m], "ok", {}, {}, <<>>)
 NShut(i, how) ==
   /\ i \in reg /\ Data(ik[i]) /\ ~eof[i]
   /\ eof' = Upd(eof, i, TRUE)
-  /\ UNCHANGED <<att, nin, ik, reg, was, rel, wire, buf, sent, last, peek, wait, cur, conn>>
+  /\ UNCHANGED <<att, dir, nin, ik, reg, was, rel, wire, buf, sent, last, peek, wait, cur, conn>>
   /\ DQuiet
   /\ NAnswer("shut", [i |-> i, how |-> how], "ok", {}, {}, <<>>)
 NConn(i) ==
   /\ i \in reg /\ Lsn(ik[i]) /\ nin + conn[i] < MaxIn
   /\ conn' = Upd(conn, i, conn[i] + 1)
-  /\ UNCHANGED <<att, nin, ik, reg, was, rel, wire, eof, buf, sent, last, peek, wait, cur>>
+  /\ UNCHANGED <<att, dir, nin, ik, reg, was, rel, wire, eof, buf, sent, last, peek, wait, cur>>
   /\ DQuiet
   /\ NAnswer("conn", [i |-> i], "ok", {}, {}, <<>>)
 
@@ -131,25 +143,33 @@ NConn(i) ==
 Ready(i) == IF Lsn(ik[i]) THEN conn[i] > 0 ELSE wire[i] # <<>> \/ eof[i]
 ReadySet == {i \in reg : Ready(i)}
 \* a FIFO whose writer is gone and that holds no data reports hang-up only: served by a wait for all events
-InReady(i)   == ~(ik[i] = "f" /\ wire[i] = <<>>)
+InReady(i)   == ~(Fifo(ik[i]) /\ wire[i] = <<>>)
 Served(what) == {i \in ReadySet : what = -1 \/ (HasIn(what) /\ InReady(i))}
 RV(rvs, i) == IF i \in DOMAIN rvs THEN rvs[i] ELSE 1
 \* how many of the messages on the wire a library input gets hold of in one go is its own business (it reads into
 \* the free part of its buffer): take[i] of them, all when take says nothing
 TK(take, i) == IF i \in DOMAIN take THEN take[i] ELSE Len(wire[i])
-NWait(what, rvs, take) ==
-  LET R    == Served(what)
+\* A harness input's next() may remove ANOTHER registered input (mpt_notify_clear from inside the wait, what a
+\* control connection does): kill = <<i, v>>, <<0, 0>> = nobody.  Whether v was served before i in this cycle is
+\* the kernel's order: early.
+KillOn(what, kill) == /\ kill[1] # 0 /\ kill[1] \in Served(what) /\ ik[kill[1]] = "h"
+                      /\ kill[2] \in reg /\ kill[2] # kill[1]
+NWait(what, rvs, take, kill, early) ==
+  LET kon  == KillOn(what, kill)
+      v    == IF kon THEN kill[2] ELSE 0
+      R    == IF kon /\ ~early THEN Served(what) \ {v} ELSE Served(what)       \* whose next() runs
       gone == {i \in R : \/ ik[i] = "h" /\ RV(rvs, i) < 0
                          \/ ik[i] \in {"s", "c"} /\ wire[i] = <<>>
-                         \/ ik[i] = "f" /\ wire[i] = <<>> /\ ~peek[i]    \* hang-up only: stays while a decoded message waits
-                         \/ ik[i] = "o"}
+                         \/ Fifo(ik[i]) /\ wire[i] = <<>> /\ ~peek[i]    \* hang-up only: stays while a decoded message waits
+                         \/ ik[i] = "o"} \cup (IF kon THEN {v} ELSE {})
       list == {i \in R \ gone : \/ ik[i] = "h" /\ RV(rvs, i) > 0
-                               \/ (ik[i] \in {"s", "c", "f"} /\ wire[i] # <<>>)}
+                               \/ (Lib(ik[i]) /\ wire[i] # <<>>)}
       acc  == {i \in R : Lsn(ik[i])}
       t    == NewIn
-      E(f, v) == IF acc = {} THEN f ELSE Ext(f, t, v)
+      E(f, v0) == IF acc = {} THEN f ELSE Ext(f, t, v0)
   IN
   /\ \A i \in DOMAIN take : take[i] \in 0..Len(wire[i])
+  /\ early => (kon /\ v \in Served(what))
   /\ nin' = IF acc = {} THEN nin ELSE t
   /\ ik' = E(ik, "c")
   /\ reg' = (reg \ gone) \cup (IF acc = {} THEN {} ELSE {t})
@@ -163,38 +183,51 @@ NWait(what, rvs, take) ==
   /\ eof' = E(eof, FALSE) /\ sent' = E(sent, 0) /\ last' = E(last, 0) /\ peek' = E(peek, FALSE)
   /\ wait' = IF ReadySet = {} THEN wait ELSE list
   /\ cur' = IF cur \in gone THEN 0 ELSE cur
-  /\ UNCHANGED att
+  /\ UNCHANGED <<att, dir>>
   /\ DQuiet
-  /\ NAnswer("wait", [what |-> what, rvs |-> rvs], "any", {i \in R : ik[i] = "h"}, gone, <<>>)
+  /\ NAnswer("wait", [what |-> what, rvs |-> rvs, kill |-> kill, early |-> IF early THEN 1 ELSE 0], "any",
+             {i \in R : ik[i] = "h"}, gone, <<>>)
 
 (* mpt_notify_next: one of the listed inputs (which one is the implementation's choice), none when the list is empty *)
 NPop(i) ==
   /\ IF wait = {} THEN i = 0 ELSE i \in wait
   /\ cur' = i /\ wait' = wait \ {i}
-  /\ UNCHANGED <<att, nin, ik, reg, was, rel, wire, eof, buf, sent, last, peek, conn>>
+  /\ UNCHANGED <<att, dir, nin, ik, reg, was, rel, wire, eof, buf, sent, last, peek, conn>>
   /\ DQuiet
   /\ NAnswer("next", [x |-> 0], "any", {}, {}, <<>>)
 
-(* cur->dispatch(handler): the oldest buffered message of the input goes through the dispatcher  *)
-(* (Dispatch!EmitMsg); without dispatcher it is consumed; nothing buffered: nothing happens.      *)
+(* cur->dispatch(handler): the oldest buffered message of the input is handed to the notifier's handler.  Through a  *)
+(* dispatcher this is Dispatch!EmitMsg on what follows the message id -- unless the id announces a reply (nobody waits *)
+(* for one here: not delivered, the answer says whether a default event is set).  A handler installed directly gets    *)
+(* the message and the reply id as they are and its answer goes back.  Without handler the message is consumed;        *)
+(* nothing buffered: nothing happens.                                                                                  *)
+DirectCall(a, arg, id, msg, hr) ==
+  /\ UNCHANGED state
+  /\ obs' = [a |-> a, arg |-> arg,
+             exp |-> [ret |-> RC(hr[1]), calls |-> <<Call(err, id, msg)>>, def |-> def, table |-> TableFrom(1, ntok)]]
 NHand(hr) ==
   LET arg == [r |-> hr[1], clear |-> hr[2]]
       q   == buf[cur]
+      e   == Head(q)
+      m   == Pay(cur, e)
+      rid == Rid(cur, e)
   IN
   /\ cur # 0 /\ Data(ik[cur])
   /\ IF q = <<>>
      THEN /\ UNCHANGED <<buf, last, peek>> /\ DQuietR(0)
      ELSE /\ buf' = Upd(buf, cur, Tail(q)) /\ last' = Upd(last, cur, last[cur] + 1)
           /\ peek' = Upd(peek, cur, Tail(q) # <<>>)
-          /\ IF att THEN EmitMsg(Head(q), hr) ELSE DQuietR(0)
-  /\ UNCHANGED <<att, nin, ik, reg, was, rel, wire, eof, sent, wait, cur, conn>>
-  /\ NAnswerD("dispatch", arg, "any", {}, {}, IF q # <<>> /\ obs'.exp.calls # <<>> THEN <<Head(q)>> ELSE <<>>,
-              IF q = <<>> \/ ~att THEN 1 ELSE 0)
+          /\ IF att THEN (IF rid # 0 THEN DQuietR(IF def # Zero THEN 1 ELSE 0) ELSE EmitMsg(m, hr))
+             ELSE IF dir THEN DirectCall("direct", arg, L(rid), 1, hr)
+             ELSE DQuietR(0)
+  /\ UNCHANGED <<att, dir, nin, ik, reg, was, rel, wire, eof, sent, wait, cur, conn>>
+  /\ NAnswerD("dispatch", arg, "any", {}, {}, IF q # <<>> /\ obs'.exp.calls # <<>> THEN <<m>> ELSE <<>>,
+              IF q = <<>> \/ (~att /\ ~dir) THEN 1 ELSE 0)
 (* what mpt_loop does on the retry flag: the input in hand is listed again *)
 NRelist ==
   /\ cur # 0
   /\ wait' = wait \cup {cur}
-  /\ UNCHANGED <<att, nin, ik, reg, was, rel, wire, eof, buf, sent, last, peek, cur, conn>>
+  /\ UNCHANGED <<att, dir, nin, ik, reg, was, rel, wire, eof, buf, sent, last, peek, cur, conn>>
   /\ DQuiet
   /\ NAnswer("relist", [x |-> 0], "any", {}, {}, <<>>)
 (* a call that finds nothing to do (its target is gone) *)
@@ -205,8 +238,8 @@ NQuiet(a, arg) ==
 
 (* the loop's default event: the handler is called without message (Dispatch!EmitNone) *)
 NIdle(hr) ==
-  /\ att
-  /\ EmitNone(hr)
+  /\ att \/ dir
+  /\ IF att THEN EmitNone(hr) ELSE DirectCall("direct", [x |-> 0], Zero, 0, hr)
   /\ UNCHANGED nstate
   /\ NAnswer("default", [r |-> hr[1], clear |-> hr[2]], "any", {}, {}, <<>>)
 
@@ -215,28 +248,40 @@ NClear(i) ==
   /\ i \in reg
   /\ reg' = reg \ {i} /\ rel' = Upd(rel, i, rel[i] + 1)
   /\ wait' = wait \ {i} /\ cur' = IF cur = i THEN 0 ELSE cur
-  /\ UNCHANGED <<att, nin, ik, was, wire, eof, buf, sent, last, peek, conn>>
+  /\ UNCHANGED <<att, dir, nin, ik, was, wire, eof, buf, sent, last, peek, conn>>
   /\ DQuiet
   /\ NAnswer("unreg", [i |-> i], "any", {}, {i}, <<>>)
 
 (* mpt_notify_dispatch: a fresh dispatcher; the one in place is finalised (every registered     *)
 (* handler and the fallback get their end-of-life call, as Dispatch!Fini)                         *)
-OldFinCalls == IF att THEN FinCalls(slots) \o (IF err > 0 THEN <<FinCall(err)>> ELSE <<>>) ELSE <<>>
-OldFinSet   == IF att THEN {slots[i].tok : i \in Live} \cup (IF err > 0 THEN {err} ELSE {}) ELSE {}
+OldFinCalls == IF att \/ dir THEN FinCalls(slots) \o (IF err > 0 THEN <<FinCall(err)>> ELSE <<>>) ELSE <<>>
+OldFinSet   == IF att \/ dir THEN {slots[i].tok : i \in Live} \cup (IF err > 0 THEN {err} ELSE {}) ELSE {}
 FreshDisp(a) ==
   /\ kind' = "none" /\ slots' = <<>> /\ def' = Zero /\ err' = -1 /\ tab' = << >>
   /\ fin' = FinUp(OldFinSet) /\ UNCHANGED <<ntok, ever>>
   /\ obs' = [a |-> a, arg |-> [x |-> 0],
              exp |-> [ret |-> "ok", calls |-> OldFinCalls, def |-> Zero, table |-> <<>>]]
 NAttach ==
-  /\ att' = TRUE /\ FreshDisp("attach")
+  /\ att' = TRUE /\ dir' = FALSE /\ FreshDisp("attach")
   /\ UNCHANGED <<nin, ik, reg, was, rel, wire, eof, buf, sent, last, peek, wait, cur, conn>>
   /\ NAnswer("attach", [x |-> 0], "ok", {}, {}, <<>>)
 
 (* mpt_notify_fini: the handler gets its end-of-life call (the dispatcher is finalised), every   *)
 (* registered input is released once, nothing stays listed                                        *)
+(* a handler installed directly on the notifier (what examples/io/dispatch.c does with notify._disp); whatever *)
+(* was in place is finalised first, as mpt_notify_dispatch and mpt++ set_handler do                            *)
+NDirect ==
+  /\ att' = FALSE /\ dir' = TRUE
+  /\ kind' = "none" /\ slots' = <<>> /\ def' = Zero /\ err' = NewTok /\ tab' = << >>
+  /\ ntok' = NewTok /\ ever' = ever \cup {NewTok}
+  /\ fin' = FinUp(OldFinSet) @@ (NewTok :> 0)
+  /\ obs' = [a |-> "direct", arg |-> [x |-> 0],
+             exp |-> [ret |-> "ok", calls |-> OldFinCalls, def |-> Zero, table |-> <<>>]]
+  /\ UNCHANGED <<nin, ik, reg, was, rel, wire, eof, buf, sent, last, peek, wait, cur, conn>>
+  /\ NAnswer("direct", [tok |-> NewTok], "ok", {}, {}, <<>>)
+
 NFini ==
-  /\ att' = FALSE /\ FreshDisp("fini")
+  /\ att' = FALSE /\ dir' = FALSE /\ FreshDisp("fini")
   /\ reg' = {} /\ wait' = {} /\ cur' = 0
   /\ rel' = [x \in DOMAIN rel |-> IF x \in reg THEN rel[x] + 1 ELSE rel[x]]
   /\ UNCHANGED <<nin, ik, was, wire, eof, buf, sent, last, peek, conn>>
@@ -254,7 +299,7 @@ NSetErr    == NTable(SetError, "seterror", [tok |-> NewTok])
 ---------------------------------------------------------------------------
 NInit ==
   /\ Init
-  /\ att = FALSE /\ nin = 0 /\ ik = << >> /\ reg = {} /\ was = {} /\ rel = << >>
+  /\ att = FALSE /\ dir = FALSE /\ nin = 0 /\ ik = << >> /\ reg = {} /\ was = {} /\ rel = << >>
   /\ wire = << >> /\ eof = << >> /\ buf = << >> /\ sent = << >> /\ last = << >> /\ peek = << >>
   /\ wait = {} /\ cur = 0 /\ conn = << >>
   /\ nobs = [a |-> "init", arg |-> [x |-> 0],
@@ -265,19 +310,28 @@ RvChoices(what) ==
   {f \in [1..nin -> NextRVs \cup {1}] :
       \A i \in 1..nin : (i \notin Served(what) \/ ik[i] # "h") => f[i] = 1}
 
+\* message ids offered in front of the messages of id-carrying inputs: none; on a read-only input also a request id
+\* (no reply can be sent there); an id announcing a reply
+MidsOf(k) == IF k = "p" THEN {<<0, 0>>, <<1, 5>>, <<128, 5>>} ELSE IF k = "c" THEN {<<0, 0>>, <<128, 5>>} ELSE {<<>>}
+KillChoices(what) ==
+  IF "kill" \in Ops
+  THEN {<<0, 0>>} \cup {kv \in {<<i, v>> : i \in {j \in Served(what) : ik[j] = "h"}, v \in reg} : kv[1] # kv[2]}
+  ELSE {<<0, 0>>}
 NNext ==
   \/ \E k \in Kinds : NAdd(k)
-  \/ "refuse" \in Ops /\ ((\E j \in reg : NAddSame(j)) \/ NAddBad)
-  \/ \E i \in reg, id \in MsgIds : NSend(i, <<id, i, sent[i] + 1>>)
+  \/ "refuse" \in Ops /\ ((\E j \in reg : NAddSame(j)) \/ NAddBad \/ NAddFile)
+  \/ \E i \in reg, id \in MsgIds : \E mid \in MidsOf(ik[i]) : NSend(i, mid \o <<id, i, sent[i] + 1>>)
   \/ \E i \in reg, how \in Hows : NShut(i, how)
   \/ \E i \in reg : (ik[i] = "o" => conn[i] = 0) /\ NConn(i)    \* a single-connection listener has no backlog
-  \/ \E what \in Whats : \E rvs \in RvChoices(what) : NWait(what, rvs, << >>)
+  \/ \E what \in Whats : \E rvs \in RvChoices(what) : \E kill \in KillChoices(what), early \in BOOLEAN :
+        NWait(what, rvs, << >>, kill, early)
   \/ \E i \in wait \cup {0} : NPop(i)
   \/ \E hr \in HRs : NHand(hr)
   \/ "relist" \in Ops /\ NRelist
   \/ "idle" \in Ops /\ \E hr \in HRs : NIdle(hr)
   \/ "unreg" \in Ops /\ \E i \in reg : NClear(i)
   \/ NAttach \/ NFini
+  \/ "direct" \in Ops /\ NDirect
   \/ \E n \in SmallIds : NSet(L(n))
   \/ "table" \in Ops /\ ((\E n \in SmallIds : NUnset(L(n))) \/ NSetErr)
 
@@ -290,6 +344,7 @@ NTypeOK ==
   /\ DOMAIN rel = 1..nin /\ DOMAIN ik = 1..nin /\ DOMAIN buf = 1..nin /\ DOMAIN wire = 1..nin
   /\ cur \in 0..nin
   /\ ~att => (tab = << >> /\ slots = <<>>)
+  /\ ~(att /\ dir) /\ (dir => err > 0)
 
 \* every input ever registered that is not registered any more was released exactly once;
 \* a registered one not at all; one the notifier refused never
@@ -304,7 +359,7 @@ ListedLive == wait \subseteq reg /\ (cur # 0 => cur \in reg)
 InOrderInv ==
   \A i \in reg : LET q == buf[i] \o wire[i] IN
      /\ last[i] = sent[i] - Len(q)
-     /\ \A k \in 1..Len(q) : q[k][3] = last[i] + k
+     /\ \A k \in 1..Len(q) : q[k][Len(q[k])] = last[i] + k
 
 (* action properties *)
 \* next() is called only on inputs that are registered (never after release) and ready
@@ -317,11 +372,12 @@ HandedRight ==
   [][(nobs'.a = "dispatch" /\ cur # 0) =>
        /\ cur \in reg /\ rel[cur] = 0
        /\ \A k \in DOMAIN nobs'.exp.d.calls :
-            LET c == nobs'.exp.d.calls[k]  m == Head(buf[cur]) IN
-            c.fin = 0 => /\ c.id = L(m[1]) /\ c.msg = 1
-                         /\ nobs'.exp.data = <<m>>
+            LET c == nobs'.exp.d.calls[k]  e == Head(buf[cur])  m == Pay(cur, e) IN
+            c.fin = 0 => /\ c.msg = 1 /\ nobs'.exp.data = <<m>>
                          /\ fin[c.tok] = 0
-                         /\ IF Registered(c.id) THEN c.tok = tab[c.id] ELSE c.tok = err]_nvars
+                         /\ IF dir THEN c.tok = err /\ c.id = L(Rid(cur, e))
+                            ELSE /\ c.id = L(m[1]) /\ Rid(cur, e) = 0
+                                 /\ IF Registered(c.id) THEN c.tok = tab[c.id] ELSE c.tok = err]_nvars
 \* releases happen only on removal by answer, by clear, or at teardown; after teardown everybody is notified
 ReleaseCause ==
   [][nobs'.a = "init" \/
